@@ -61,35 +61,79 @@ def comparison_controls(fn, cmp, target_blocks, ok_blocks=None):
     return out
 
 
-def find_guard(prog, fn, enum_path, variant, need_a, need_b, search_tree=False):
-    """Look for a gating comparison for `variant` in fn (or, with search_tree, in its workspace callees too).
-    Returns (status, detail): status in 'ok' | 'no-site' | 'no-compare' | 'not-gating'."""
-    fns = [fn]
-    if search_tree:
-        fns, _ = tree(prog, [fn])
-    any_site = False
-    best = ("no-site", "error variant %s is not constructed" % variant)
-    for f in fns:
-        sites = error_sites(f, enum_path, variant)
-        if not sites:
+def _guard_in(f, enum_path, variant, need_a, need_b, subst=None):
+    """Gate search inside one function.  `subst` maps 'p:i' tokens to the caller's tokens for that argument."""
+    sites = error_sites(f, enum_path, variant)
+    if not sites:
+        return None
+    oks, errs = ok_return_blocks(f)
+    if not oks:
+        from .props.C13 import success_defs
+        oks = success_defs(f)
+    best = ("no-compare", "no comparison of {%s} with {%s} in %s" % (",".join(sorted(need_a)), ",".join(sorted(need_b)), f.id))
+
+    def toks(o):
+        t = side_tokens(f, o)
+        if subst:
+            extra = set()
+            for x in t:
+                if x in subst:
+                    extra |= subst[x]
+            t = t | extra
+        return t
+    for cmp in comparisons(f):
+        ta, tb = toks(cmp[2]), toks(cmp[3])
+        if not ((need_a <= ta and need_b <= tb) or (need_a <= tb and need_b <= ta)):
             continue
-        any_site = True
-        oks, errs = ok_return_blocks(f)
-        found_cmp = False
-        for cmp in comparisons(f):
-            ta = side_tokens(f, cmp[2])
-            tb = side_tokens(f, cmp[3])
-            if not ((need_a <= ta and need_b <= tb) or (need_a <= tb and need_b <= ta)):
-                continue
-            found_cmp = True
-            ctrls = comparison_controls(f, cmp, sites, oks)
-            if ctrls:
-                return "ok", "%s: compare@%s gates %s" % (f.id.rsplit("::", 1)[-1], cmp[5], variant)
-            best = ("not-gating", "comparison at line %s has no side that leads to %s without being able to reach Ok" % (cmp[5], variant))
-        if not found_cmp and best[0] == "no-site":
-            best = ("no-compare", "no comparison of {%s} with {%s} in %s" % (",".join(sorted(need_a)), ",".join(sorted(need_b)), f.id))
-    if not any_site:
+        if comparison_controls(f, cmp, sites, oks):
+            return "ok", "%s: compare@%s gates %s" % (f.id.rsplit("::", 1)[-1], cmp[5], variant)
+        best = ("not-gating", "comparison at line %s has no side that leads to %s without being able to reach Ok" % (cmp[5], variant))
+    return best
+
+
+def find_guard(prog, fn, enum_path, variant, need_a, need_b, search_tree=True):
+    """Look for a gating comparison for `variant` in fn.  If the check was moved into a helper (the variant is constructed
+    in a workspace callee, up to two levels down), the helper is searched with its parameters substituted by the caller's
+    argument tokens and the helper's Result must be propagated by the caller.
+    Returns (status, detail): status in 'ok' | 'no-site' | 'no-compare' | 'not-gating'."""
+    from .prims import result_inspected
+    r = _guard_in(fn, enum_path, variant, need_a, need_b)
+    if r is not None and r[0] == "ok":
+        return r
+    best = r or ("no-site", "error variant %s is not constructed" % variant)
+    if not search_tree:
         return best
+    frontier = [(fn, None, 0)]
+    seen = {fn.id}
+    while frontier:
+        f, subst, depth = frontier.pop(0)
+        if depth >= 2:
+            continue
+        for bi, t in f.calls():
+            callee = f.callee_of(t) or ""
+            h = prog.fns.get(callee)
+            if h is None or h.id in seen or f.blocks[bi]["cl"] or not h.crate.startswith(fn.crate.split("_")[0]):
+                continue
+            if not result_inspected(f, bi)[0]:
+                continue
+            seen.add(h.id)
+            sub = {}
+            for ai, a in enumerate(t["args"]):
+                tk = side_tokens(f, a)
+                if subst:
+                    extra = set()
+                    for x in tk:
+                        if x in subst:
+                            extra |= subst[x]
+                    tk = tk | extra
+                sub["p:%d" % (ai + 1)] = tk
+            rr = _guard_in(h, enum_path, variant, need_a, need_b, sub)
+            if rr is not None:
+                if rr[0] == "ok":
+                    return "ok", rr[1] + " (helper of %s)" % fn.name
+                if best[0] == "no-site":
+                    best = rr
+            frontier.append((h, sub, depth + 1))
     return best
 
 
